@@ -39,6 +39,10 @@ def runCase (s : Suite) : Json :=
         Json.mkObj [("xfail", toJson f.xfail), ("items", Json.arr (f.items.map itemJ).toArray)])).toArray),
     ("imports_ok", toJson ((runTops (tops s) []).isSome)),
     ("names_ok", toJson ((fns s).all (fun f => (fnRefs s f).all (refOk env)))),
+    -- per function: the classes named by `pytest.raises(...)`, the module that defines each, and whether the
+    -- emitted file's module-level names resolve the class name to that class (theorem `raises_class_imported`)
+    ("raises_classes", toJson ((fns s).map (fun f => (usedExc f).map (fun c =>
+        Json.arr #[c.name, c.module, toJson (refOk env (c.name, clsObj s.sutName c.module c.name))])))),
     ("report", match report with
       | some l => toJson (l.map outcomeStr)
       | none => Json.null) ]
